@@ -141,6 +141,46 @@ def strlike_key_grid(ctx):
                 yield c
 
 
+def replacing_base_hooks(ctx):
+    """a fixed grid: string-like classes two and three levels deep where a *base* class's savorize hook
+    replaces the node (a normalised spelling) and the derived class is the one recognised - at the root, in
+    a list, as an attribute, as a dict value and as a dict key"""
+    yaml, yatiml = L.setup()
+    rng = ctx.rng
+    S = G.S
+    for kind in ('userstring', 'yatimlstring'):
+        for depth in (2, 3):
+            for where in ('base', 'mid', 'both'):
+                base = dict(name='Base', bases=[], registered=True, kind=kind)
+                mid = dict(name='Mid', bases=['Base'], registered=True, kind=kind)
+                leaf = dict(name='Leaf', bases=['Mid'], registered=True, kind=kind)
+                spec = [base, mid] + ([leaf] if depth == 3 else [])
+                if where in ('base', 'both'):
+                    base['savorize'] = [('replace', 'canon')]
+                if where in ('mid', 'both'):
+                    mid['savorize'] = [('replace', 'x')]
+                if where == 'mid' and depth == 2:
+                    continue        # the hook would be the recognised class's own
+                top = 'Leaf' if depth == 3 else 'Mid'
+                ps = [dict(name='s', type=('cls', 'Base')), dict(name='n', type=('int',), default=0)]
+                holder = dict(name='Holder', bases=[], registered=True, kind='plain', params=ps, all_params=ps,
+                              extra=False, abstract=None, define_init=True)
+                for t, doc in ((('cls', 'Base'), S('Word')), (('cls', top), S('Word')),
+                               (('seq', 'list', ('cls', 'Base')), ('q', [S('One'), S('Two')], None)),
+                               (('cls', 'Holder'), ('m', [(S('s'), S('Word'))], None)),
+                               (('map', 'dict', ('str',), ('cls', 'Base')), ('m', [(S('k'), S('Word'))], None)),
+                               (('map', 'dict', ('cls', 'Base'), ('int',)), ('m', [(S('Word'), S('1'))], None))):
+                    try:
+                        c = L.build_case(rng, yaml, yatiml, spec + [holder], t, doc,
+                                         ('replacing-base-hook', kind, depth, where))
+                        L.run_case(c, yaml)
+                    except Exception as e:  # noqa
+                        ctx.count('gen_error:' + type(e).__name__)
+                        continue
+                    ctx.count('replacing_base_hooks')
+                    yield c
+
+
 def alias_grid(ctx):
     """a fixed grid (no chance involved): an anchored EMPTY mapping / sequence reused at another declared
     type, with and without a hook that fills in an attribute in place; an anchored mapping reused at the
